@@ -1486,11 +1486,18 @@ func call(n *node) {
 
 		nf := newFrame(f, len(def.types), f.runid())
 		var vararg reflect.Value
+		namedRes := namedResults(def)
 
 		// Init return values
 		for i, v := range rvalues {
 			if v != nil {
 				nf.data[i] = v(f)
+				if namedRes && nf.data[i].Type() == def.types[i] {
+					// A named result is a variable of the callee which starts at its
+					// zero value: it can not be the destination of the caller, which
+					// keeps its value until the call returns.
+					nf.data[i] = reflect.New(def.types[i]).Elem()
+				}
 			} else {
 				nf.data[i] = reflect.New(def.types[i]).Elem()
 			}
